@@ -167,6 +167,9 @@ def _postsel(ctx, kind):
         ps = lw.PostSelection()
         ps.add(0, (0, 1))
         return ps, (lambda s: s[0] in (0, 1))
+    if kind == "statefunc":
+        # written against the State API; every sampler has to hand it States
+        return (lambda s: s.n_photons >= 1 and isinstance(s, lw.State)), (lambda s: sum(s) >= 1)
     return (lambda s: sum(s) >= 1), (lambda s: sum(s) >= 1)
 
 
@@ -431,7 +434,7 @@ def harnesses(tier):
                     ni.append(dict(which=which, postsel=postsel, min_det=md, counting=cnt, N=1))
     if tier != "quick":
         ni += [dict(which=w, postsel="none", min_det=1, counting=False, N=2) for w in ("bs", "herald1")]
-    no = [dict(which=w, postsel=p, min_det=m, counting=cnt, sampler_kind=k) for w in ("bs", "herald1", "herald0-lossy", "hom-herald", "bunch-herald", "herald-only") for p in ("none", "rule", "func") for m in (0, 1, 2) for cnt in (True, False) for k in ("sampler", "quick") if not (k == "quick" and m > 0)]
+    no = [dict(which=w, postsel=p, min_det=m, counting=cnt, sampler_kind=k) for w in ("bs", "herald1", "herald0-lossy", "hom-herald", "bunch-herald", "herald-only") for p in ("none", "rule", "func", "statefunc") for m in (0, 1, 2) for cnt in (True, False) for k in ("sampler", "quick") if not (k == "quick" and m > 0)]
     return [
         ("detector-law", h_detector_law, dl),
         ("sample_N_inputs", h_sample_n_inputs, ni, dict(max_paths=200)),
